@@ -116,7 +116,8 @@ type File struct {
 	Imports []*File
 	SubDir  string
 	PkgName string
-	Enum    bool // declares enum "E" {E0=0; E1=1; E2=2; EN=-1; EBIG=2147483647}
+	InDirOf string // generate into the directory (= Go package) of the file with this Base
+	Enum    bool   // declares enum "E" {E0=0; E1=1; E2=2; EN=-1; EBIG=2147483647}
 	// GoogleOnly: uses proto3 optional fields, which gogo/protobuf 1.3.2's generator does not support
 	// (it renders them as oneofs), so there are no gogo base types to attach fast-marshal code to
 	GoogleOnly bool
@@ -127,6 +128,9 @@ type File struct {
 
 // Dir is the directory (relative to the module root) of the .proto file and of the generated Go package.
 func (f *File) Dir() string {
+	if f.InDirOf != "" {
+		return f.InDirOf
+	}
 	if f.SubDir != "" {
 		return f.Base + "/" + f.SubDir
 	}
@@ -466,6 +470,19 @@ func Matrix() []*File {
 					Nested: []*Message{{Name: "Deep", Extends: []Ext{{Extendee: "Base", Field: Field{Name: "deep_level", Num: 300, Kind: KInt32, Card: Optional}}}}}})
 			files = append(files, xm)
 		}
+		if p2 {
+			// a proto3 file whose map / singular / repeated message fields are proto2 messages with required fields,
+			// declared in another .proto of the same Go package
+			rd := &File{Base: "p2reqdep", Proto2: true, InDirOf: "p3usesp2", Messages: []*Message{
+				{Name: "Need", Fields: []Field{{Name: "id", Num: 1, Kind: KInt32, Card: Required}, {Name: "note", Num: 2, Kind: KString, Card: Optional}}}}}
+			us := &File{Base: "p3usesp2", Imports: []*File{rd}, Messages: []*Message{
+				{Name: "Holder", Fields: []Field{
+					{Name: "by", Num: 1, Kind: KMessage, Card: Map, MapKey: KString, MapVal: KMessage, MapMsg: "Need", MsgFile: "p2reqdep"},
+					{Name: "one", Num: 2, Kind: KMessage, Card: Implicit, Msg: "Need", MsgFile: "p2reqdep"},
+					{Name: "many", Num: 3, Kind: KMessage, Card: RepUnpacked, Msg: "Need", MsgFile: "p2reqdep"},
+					{Name: "x", Num: 4, Kind: KInt64, Card: Implicit}}}}}
+			files = append(files, rd, us)
+		}
 		// oneofs
 		oo := &File{Base: pre + "oneof", Proto2: p2, Enum: true}
 		ol := &Message{Name: "Leaf", Fields: append([]Field{}, leaf.Fields...)}
@@ -557,26 +574,65 @@ func (f *File) Index() (names []string, idx map[string]int) {
 		}
 	}
 	walk("", f.Messages)
+	// the messages of imported files follow, addressed as "<file>:<name>"
+	seen := map[string]bool{f.Base: true}
+	var deps func(x *File)
+	deps = func(x *File) {
+		for _, d := range x.Imports {
+			if !seen[d.Base] {
+				seen[d.Base] = true
+				walk(d.Base+":", d.Messages)
+				deps(d)
+			}
+		}
+	}
+	deps(f)
 	return
 }
 
-// SchemaTerm prints the whole file: idx=p2|p3:num,kind,card;...|idx=...
+// fileOf finds the (transitively) imported file with the given base name
+func (f *File) fileOf(base string) *File {
+	if base == "" || base == f.Base {
+		return f
+	}
+	for _, d := range f.Imports {
+		if x := d.fileOf(base); x != nil && x.Base == base {
+			return x
+		}
+	}
+	return nil
+}
+
+// SchemaTerm prints the whole file (and the messages of the files it imports): idx=p2|p3:num,kind,card;...|idx=...
 // kind: scalar name | msg<idx>; card: i o q rp ru u<group> m:<keykind>:<valkind>
 func (f *File) SchemaTerm() string {
 	names, idx := f.Index()
-	all := f.AllMessages()
 	var parts []string
 	for i, n := range names {
-		m := all[n]
+		owner, rel := f, n
+		if k := strings.Index(n, ":"); k >= 0 {
+			owner, rel = f.fileOf(n[:k]), n[k+1:]
+		}
+		m := owner.AllMessages()[rel]
+		// a reference from a message of file owner to message name in file mf ("" = owner itself)
+		ref := func(mf, name string) int {
+			if mf == "" {
+				mf = owner.Base
+			}
+			if mf == f.Base {
+				return idx[name]
+			}
+			return idx[mf+":"+name]
+		}
 		syn := "p3"
-		if f.Proto2 {
+		if owner.Proto2 {
 			syn = "p2"
 		}
 		var fs []string
 		for _, fd := range m.Fields {
 			kind := fd.Kind.String()
 			if fd.Kind == KMessage && fd.Card != Map {
-				kind = fmt.Sprintf("msg%d", idx[fd.Msg])
+				kind = fmt.Sprintf("msg%d", ref(fd.MsgFile, fd.Msg))
 			}
 			card := cardCode[fd.Card]
 			switch fd.Card {
@@ -585,7 +641,7 @@ func (f *File) SchemaTerm() string {
 			case Map:
 				vk := fd.MapVal.String()
 				if fd.MapVal == KMessage {
-					vk = fmt.Sprintf("msg%d", idx[fd.MapMsg])
+					vk = fmt.Sprintf("msg%d", ref(fd.MsgFile, fd.MapMsg))
 				}
 				kind = "map"
 				card = fmt.Sprintf("m:%s:%s", fd.MapKey, vk)
@@ -593,10 +649,10 @@ func (f *File) SchemaTerm() string {
 			fs = append(fs, fmt.Sprintf("%d,%s,%s", fd.Num, kind, card))
 		}
 		// the extensions the generated code handles behave as optional fields of the extended message
-		for _, x := range f.ExtsOf(n) {
+		for _, x := range owner.ExtsOf(rel) {
 			kind := x.Kind.String()
 			if x.Kind == KMessage {
-				kind = fmt.Sprintf("msg%d", idx[x.Msg])
+				kind = fmt.Sprintf("msg%d", ref("", x.Msg))
 			}
 			fs = append(fs, fmt.Sprintf("%d,%s,%s", x.Num, kind, cardCode[x.Card]))
 		}
